@@ -157,6 +157,7 @@ def native_checks(spec, prop, tier, seed):
 
 def explain(o):
     print("==== " + o.name, "|", o.info or "")
+    print("  path:", " -> ".join("%s@%d" % t for t in o.trace))
     s = z3.Solver()
     s.set("timeout", 20000)
     for p in o.pc:
@@ -175,7 +176,7 @@ def explain(o):
         v = m.eval(t, model_completion=True)
         if not z3.is_true(v):
             txt = str(t).replace("\n", " ")
-            print("  FAILS:", txt[:400])
+            print("  FAILS:", txt[:1500])
             subs = {}
             for sub in _subterms(t):
                 if sub.sort().kind() in (z3.Z3_INT_SORT, z3.Z3_BOOL_SORT) and sub.num_args() > 0 and len(str(sub)) < 80:
